@@ -5,3 +5,4 @@ pub mod units;
 pub mod psim;
 pub mod slog;
 pub mod rk;
+pub mod winshim;
